@@ -77,6 +77,24 @@ CLAIMED["C05"] = dict(
     note=FS_NOTE,
 )
 
+CLAIMED["C12"] = dict(
+    engine="symx",
+    technique="symbolic execution of the real Put/copyFile/putIndexEntry code over a file-system model with a solver-chosen crash point / failing operation / short write / misbehaving source reader",
+    text=("Every file-operation boundary of Put is a possible stop (operations after the crash point have no effect) or a failing operation (a failing write leaves a solver-chosen prefix); "
+          "the source reader may fail at any offset in either pass, fail to seek, end early or change its bytes. Afterwards a fresh Cache value must see: GetBytes not-found or bytes hashing to the "
+          "reported OutputID (and equal to some Put's bytes), GetFile's file of the reported size holding bytes with that OutputID, and the unrelated entry intact."),
+    design_ref="DESIGN.md §4 C12",
+    note=FS_NOTE,
+)
+CLAIMED["C13"] = dict(
+    engine="symx",
+    technique="symbolic execution of Trim/trimSubdir/used (with lockedfile.Read/Write) from go/ssa over a file-system model with symbolic modification times and last-trim record; z3 (+ stand-alone portfolio) decides the time arithmetic",
+    text=("Trim, trimSubdir and used are executed symbolically: file ages, the decimal digits of the last-trim record and the time of a preceding lookup are solver variables. Asserted: no effect when a trim "
+          "completed less than a day ago; entries used within five days, looked-up entries and non-entry files are never removed; when due, entries older than five days plus one hour are removed and the trim time is recorded."),
+    design_ref="DESIGN.md §4 C13",
+    note=FS_NOTE,
+)
+
 NOT_APPLICABLE = {
     "C20": "goproxytest's behaviour lives in net/http, archive/zip+flate, encoding/json (reflection) and directory walks; none is encodable by the SSA symbolic executor, and with them stubbed nothing solver-relevant remains (its once-per-key ingredient is par.Cache = C10)",
 }
